@@ -63,6 +63,10 @@ func auditBase() *idl.Program {
 			{Name: "fire", Oneway: true, Args: []*idl.Field{fld(1, "n", "default", T("i64"))}},
 			{Name: "list", Ret: List(T("base.Thing"))},
 		}}},
+		// a local service with the same bare name as the included base.BaseSvc, and children of each
+		{Service: &idl.Service{Name: "BaseSvc", Methods: []*idl.Method{{Name: "localPing"}}}},
+		{Service: &idl.Service{Name: "KidOfIncluded", Extends: "base.BaseSvc", Methods: []*idl.Method{{Name: "kidPing"}}}},
+		{Service: &idl.Service{Name: "KidOfLocal", Extends: "BaseSvc", Methods: []*idl.Method{{Name: "kidPing"}}}},
 		{Service: &idl.Service{Name: "Plain", Methods: []*idl.Method{{Name: "noop"}, {Name: "count", Ret: T("i32")}, {Name: "tally", Ret: T("Counts"), Args: []*idl.Field{fld(1, "n", "default", T("Nums"))}}}}},
 		{Scope: &idl.Scope{Name: "Events", Prefix: "foo.{user}.bar", Ops: []*idl.Op{{Name: "Created", Type: T("Point")}, {Name: "Holding", Type: T("Holder")}}}},
 		{Scope: &idl.Scope{Name: "Audit", Prefix: "", Ops: []*idl.Op{{Name: "Logged", Type: T("base.Thing")}}}},
@@ -448,6 +452,13 @@ func auditEdits(base *idl.Program) []edit {
 			if d.Service.Extends != "" {
 				out = append(out, edit{Name: "service " + sn + "/extends-changed", Label: "breaking", Apply: func(p *idl.Program) { findService(p, sn).Extends = "Other" }})
 				out = append(out, edit{Name: "service " + sn + "/extends-removed", Label: "breaking", Apply: func(p *idl.Program) { findService(p, sn).Extends = "" }})
+				// a different parent with the same bare name (qualified <-> local)
+				switch d.Service.Extends {
+				case "base.BaseSvc":
+					out = append(out, edit{Name: "service " + sn + "/extends-included-parent-to-local-namesake", Label: "breaking", Apply: func(p *idl.Program) { findService(p, sn).Extends = "BaseSvc" }})
+				case "BaseSvc":
+					out = append(out, edit{Name: "service " + sn + "/extends-local-parent-to-included-namesake", Label: "breaking", Apply: func(p *idl.Program) { findService(p, sn).Extends = "base.BaseSvc" }})
+				}
 			} else if sn == "Plain" {
 				out = append(out, edit{Name: "service " + sn + "/extends-added", Label: "compatible", Apply: func(p *idl.Program) { findService(p, sn).Extends = "Parent" }})
 			}
